@@ -22,6 +22,7 @@ type sprofile struct {
 	pPatch    float64
 	pNoSnap   float64
 	pHold     float64
+	pReset    float64 // a collection is reset (purged) in the middle of the history; its clients go on
 	lite      bool
 	dts       []string
 }
@@ -33,7 +34,7 @@ var sprofiles = map[string]sprofile{
 	"mut":    {name: "mut", steps: 24, maxCli: 3, maxKeys: 2, cols: 2, pCall: 0.35, pSync: 0.55, pNewDt: 0.1, pMut: 0.5, storeEach: true, dts: []string{"counter", "list", "map"}},
 	"rest":   {name: "rest", steps: 22, maxCli: 3, maxKeys: 1, cols: 1, pCall: 0.35, pSync: 0.4, pNewDt: 0.05, pPatch: 0.2, pNoSnap: 0.3, storeEach: true, dts: []string{"document"}},
 	"snap11": {name: "snap11", steps: 26, maxCli: 3, maxKeys: 2, cols: 1, pCall: 0.4, pSync: 0.42, pNewDt: 0.06, pPatch: 0.06, pHold: 0.3, storeEach: true, lite: true, dts: []string{"counter", "map", "list", "document"}},
-	"iso":    {name: "iso", steps: 28, maxCli: 4, maxKeys: 2, cols: 3, pCall: 0.4, pSync: 0.45, pNewDt: 0.15, pMut: 0.25, storeEach: true, dts: []string{"counter", "map", "list"}},
+	"iso":    {name: "iso", steps: 28, maxCli: 4, maxKeys: 2, cols: 3, pCall: 0.4, pSync: 0.45, pNewDt: 0.15, pMut: 0.25, pReset: 0.04, storeEach: true, dts: []string{"counter", "map", "list"}},
 }
 
 type sgen struct {
@@ -201,6 +202,9 @@ func (s *sgen) runCase(id int) bool {
 		x := float64(s.r.next()%1000000) / 1000000.0
 		var hung bool
 		switch {
+		case s.p.pReset > 0 && s.r.chance(s.p.pReset):
+			// the collection is purged; the clients that were registered in it keep acting in the same server process
+			hung = s.emit(s.w.stepReset(s.cols[s.r.intn(len(s.cols))]))
 		case s.p.pPatch > 0 && s.r.chance(s.p.pPatch):
 			key := s.keys[s.r.intn(len(s.keys))]
 			col := s.cols[s.r.intn(len(s.cols))]
